@@ -82,10 +82,9 @@ pub fn num_imported_funcs(wasm: &[u8]) -> u32 {
 
 /// Returns the module with DWARF sections appended, or None if it has no code.
 pub fn add_dwarf(wasm: &[u8], opts: DwarfOpts) -> Option<Vec<u8>> {
+    // a module without local functions still gets a unit (compile unit DIE, empty line program): that is what a
+    // C file with only data compiles to
     let funcs = layout(wasm);
-    if funcs.is_empty() {
-        return None;
-    }
     let nimp = num_imported_funcs(wasm);
     let encoding = Encoding { format: Format::Dwarf32, version: opts.version, address_size: 4 };
     let mut dwarf = DwarfUnit::new(encoding);
@@ -95,8 +94,8 @@ pub fn add_dwarf(wasm: &[u8], opts: DwarfOpts) -> Option<Vec<u8>> {
     let dir = lp.default_directory();
     let file = lp.add_file(LineString::String(b"f.c".to_vec()), dir, None);
     let mut line = 1u64;
-    let base0 = funcs[0].body_start;
-    if opts.spanning {
+    let base0 = funcs.first().map(|f| f.body_start).unwrap_or(0);
+    if opts.spanning && !funcs.is_empty() {
         lp.begin_sequence(Some(Address::Constant(base0)));
     }
     for f in &funcs {
@@ -115,7 +114,7 @@ pub fn add_dwarf(wasm: &[u8], opts: DwarfOpts) -> Option<Vec<u8>> {
             lp.end_sequence(f.end - base);
         }
     }
-    if opts.spanning {
+    if opts.spanning && !funcs.is_empty() {
         lp.end_sequence(funcs.last().unwrap().end - base0);
     }
     dwarf.unit.line_program = lp;
